@@ -129,6 +129,16 @@ func byteTargets(f fkey) []byteTarget {
 				}
 			}
 		}},
+		{"cwt.Claims_UnmarshalCBOR", func(b []byte) {
+			cl := &cwt.Claims{Issuer: "stale", CWTID: []byte{1, 2, 3}}
+			if cl.UnmarshalCBOR(b) == nil {
+				cl.Bytesify()
+				key.MarshalCBOR(cl)
+			}
+			var nilc *cwt.Claims
+			_ = nilc
+			decodeInto[cwt.Claims](b)
+		}},
 		{"cwt.Validator_Validate", func(b []byte) {
 			var cl cwt.Claims
 			if key.UnmarshalCBOR(b, &cl) == nil {
